@@ -31,6 +31,13 @@ SCAN_TABLE = {
     "JoinShortestQueue.next_node": ("self.destinations", [], None),
 }
 
+EXTRA_FILTERS = {
+    # further conditions that are part of a scan by design (text with VAR for the loop variable)
+    "Node.update_next_end_service_without_server": ["VAR.service_end_date < self.now"],       # `service_end_date >= now`: sentinel False compares below any date
+    "Node.decide_class_change": [],
+    "JoinShortestQueue.next_node": [],
+}
+
 ALLOWED = {
     "arrival_date": {"NOW", "SENT"},
     "exit_date": {"NOW", "SENT"},
@@ -50,6 +57,7 @@ def check(ctx):
     clock(ctx, P, iters)
     scan_rules(ctx, P)
     provenance(ctx, P)
+    sentinel_tests(ctx, P)
     rearm(ctx, P, iters)
     records(ctx, P)
     ctx.assume("distributions return non-negative samples (the property's own proviso; C10 checks the engine validates them)")
@@ -137,6 +145,37 @@ def scan_rules(ctx, P):
                     if facts.get(atom) is not want:
                         ctx.violation(ob, "R6.argmin", q, "%s: filter %s" % (name, guards.show(("not", atom) if not want else atom)), "filter-missing-on-" + name.split()[0],
                                       "the %s of the scan in %s must be under `%s`" % (name, q, guards.show(("not", atom) if not want else atom)), loc(arm))
+    # no extra filter may exclude a legitimate candidate from a scan
+    for q, lst in sorted(found.items()):
+        spec = SCAN_TABLE.get(q)
+        if spec is None:
+            continue
+        for sc in lst:
+            var = unparse(sc.loop.target)
+            allowed = set()
+            for f in spec[1]:
+                atom = f[1] if f[0] == "not" else f
+                allowed.add(tuple(x.replace("VAR", var) if isinstance(x, str) else x for x in atom))
+            allowed |= {sc.cmp_atom, ("isinf", sc.best)}
+            extra_ok = EXTRA_FILTERS.get(q, [])
+            conds = []
+            for arm in [sc.arm] + sc.ties:
+                for test, pol in scans._enclosing_tests(arm, sc.loop):
+                    conds.append(test)
+                conds.append(arm.test)
+            for x in ast.walk(sc.loop):
+                if isinstance(x, ast.If) and any(isinstance(y, (ast.Continue, ast.Break)) for y in x.body + x.orelse):
+                    conds.append(x.test)
+            for test in conds:
+                for a_ in guards.atoms(guards.norm(test, unparse)):
+                    if a_ in allowed or (a_[0] == "eq" and sc.best in a_[1:]) or (a_[0] == "lt" and sc.best in a_[1:]):
+                        continue
+                    if any(guards.show(a_).replace(var, "VAR") == t for t in extra_ok):
+                        continue
+                    if a_[0] == "isnone" and "." not in a_[1] and "(" not in a_[1] and q == "Node.decide_class_change":
+                        continue        # `dist is None`: classes without a class-change distribution are not candidates (any local name)
+                    ctx.violation(ob, "R6.argmin", q, guards.show(a_), "extra-filter",
+                                  "the scan in %s skips candidates under `%s`, which is not one of its stated filters: the true minimum may be overlooked" % (q, guards.show(a_)), loc(test))
     # consumers
     consumer_checks(ctx, ob, P)
     ctx.floor("arg-min scans", sum(len(v) for v in found.values()), 9)
@@ -264,6 +303,40 @@ def provenance(ctx, P):
                         if val not in ("DUR", "INF", "PREV+DUR:" + tgt):
                             ctx.violation(ob, "R7.provenance", "%s.%s" % (cls.name, m), unparse(x)[:90], "date-provenance",
                                           "next arrival date of a stream must be the previous date of the same stream + sampled inter-arrival time (or the first sample / inf); got %s" % val, loc(x))
+
+
+def _bool_operands(t):
+    """sub-expressions of a test that are evaluated for their truth value"""
+    if isinstance(t, ast.BoolOp):
+        out = []
+        for v in t.values:
+            out += _bool_operands(v)
+        return out
+    if isinstance(t, ast.UnaryOp) and isinstance(t.op, ast.Not):
+        return _bool_operands(t.operand)
+    return [t]
+
+
+def sentinel_tests(ctx, P):
+    ob = ctx.ob("SENT", "date fields are never tested by truthiness: 0.0 is a valid date, the 'no date' sentinel is tested with `is False` / `is not False`")
+    n = 0
+    for ci, fn in P.all_functions():
+        for x in ast.walk(fn):
+            tests = []
+            if isinstance(x, (ast.If, ast.While, ast.IfExp)):
+                tests.append(x.test)
+            if isinstance(x, ast.comprehension):
+                tests += x.ifs
+            for t in tests:
+                for o in _bool_operands(t):
+                    if isinstance(o, ast.Attribute) and o.attr in dates.DATE_FIELDS + ("next_event_date",):
+                        ctx.violation(ob, "R7.sentinel-test", P.func_name(fn), unparse(t)[:80], "date-tested-by-truthiness",
+                                      "`%s` is tested for truthiness: a date of exactly 0.0 (first event at time 0) is then mistaken for 'no date'" % unparse(o), loc(t))
+                for y in ast.walk(t):
+                    if isinstance(y, ast.Attribute) and y.attr in dates.DATE_FIELDS:
+                        n += 1
+                        ob.ok("%s:%s" % (P.func_name(fn), unparse(t)[:50]))
+    ctx.counters["date sentinel tests seen"] = n
 
 
 def rearm(ctx, P, iters):
